@@ -82,6 +82,14 @@ def check_casts(ctx, B, rule, include_float=True, reviewed=None):
         key = '%s:%s' % (rule, inst)
         rng = R.range_of(rv['op'], bb)
         where = ctx.where(B, ln=st['ln'])
+        # |x| of a NEGATIVE signed x: x.wrapping_neg() reinterpreted as the unsigned type of the same width is exact (MIN included)
+        o_ = B.origin(rv['op'])
+        if ck == 'IntToInt' and o_[0] == 'call' and o_[1] and str(o_[1]).endswith('::wrapping_neg') and rv['from'][0] == 'i' and rv['to'] == 'u' + rv['from'][1:]:
+            ct_ = B.blocks[o_[2]]['t']
+            xr = R.range_of(ct_['args'][0], bb) if ct_['args'] else (-INF, INF)
+            if xr[1] <= -1:
+                ctx.ok(rule, inst, 'magnitude of a value known to be negative ([%s, %s]): wrapping_neg + reinterpretation is exact' % (xr[0], xr[1]), where)
+                continue
         if rng[0] >= to[0] and rng[1] <= to[1]:
             ctx.ok(rule, inst, 'value range [%s, %s] fits %s' % (rng[0], rng[1], rv['to']), where)
         elif _reviewed(reviewed, inst):
